@@ -275,7 +275,7 @@ TECH = "contract-based deductive verification: Kani function contracts / full-do
 PROPS = {
     "C01": {
         "level": "proof",
-        "claim": "Preamble codec only, both directions and both styles: the WebTransport stream preamble (0x54 / 0x41 varint + session id varint) is written exactly (StreamHeader/Frame encoders and the local upgrades, sync and async, Verus unit frame_write + Kani) and stripped exactly (one-shot, buffered at every cut point, async as sequential composition of the leaf futures whose one-step inductive poll contracts cover every chunking / Pending pattern): decoders consume precisely the preamble and never a following application byte.",
+        "claim": "Preamble codec only, both directions and both styles: the WebTransport stream preamble (0x54 / 0x41 varint + session id varint) is written exactly (StreamHeader/Frame encoders and the local upgrades, sync and async, Verus unit frame_write + Kani) and stripped exactly (one-shot, buffered at every cut point, async as sequential composition of the leaf futures whose one-step inductive poll contracts cover every chunking / Pending pattern): decoders consume precisely the preamble and never a following application byte. The ASYNC encoders the driver uses for every locally opened stream (StreamHeader::write_async, Frame::write_async, bilocal / unilocal upgrade_async) emit exactly the same preamble bytes on an always-ready destination (Kani composite harnesses; chunking / Pending by the leaf-future poll contracts), and a buffered read that asks for more data leaves the stream's first-frame state untouched (second attempt on the same stream object).",
         "note": "Not decided: that quinn delivers stream bytes in order, the driver's tasks, concurrency between streams, flow control. Assumed: async fn desugaring composes awaits sequentially (rewrite R9); BytesReader/Writer and AsyncReader/Writer interfaces are assumed in Verus and discharged for the real impls / leaf futures by the named Kani harnesses.",
         "kani": STREAM_HEADER_KANI + [STREAM_KANI_QUICK[4], STREAM_KANI_QUICK[5], FRAME_READ_20, STREAM_KANI_BUFFERED[0]] + ASYNC_LEAF_KANI + ASYNC_WRITE_KANI,
         "verus": [V("frame", pair=("proto", "p_frame_read_matches_reference_20")), V("frame_async"), V("stream_header", pair=("proto", "p_stream_header_read_matches_reference")), V("frame_write", pair=("proto", "p_frame_write_roundtrip_8"))],
@@ -350,7 +350,7 @@ PROPS = {
     },
     "C14": {
         "level": "proof",
-        "claim": "Exact inverses with exact sizes for varints (all v < 2^62, all four reader/writer impls, shortest form, untouched-on-error), stream headers (complete), frame headers (complete) with payloads up to the stated bound, datagrams, and QPACK prefix integers (all usize values, all widths); the QPACK static table is RFC 9204 Appendix A.",
+        "claim": "Exact inverses with exact sizes for varints (all v < 2^62, all four reader/writer impls, shortest form, untouched-on-error), stream headers (complete), frame headers (complete) with payloads up to the stated bound, datagrams, and QPACK prefix integers (all usize values, all widths); the QPACK static table is RFC 9204 Appendix A. Async encoders: StreamHeader::write_async and Frame::write_async emit exactly the bytes write_size announces; PutBuffer / PutVarint never lose or repeat progress across Pending; the encoder's static-table index is used only for an EXACT (name, value) match.",
         "note": "Frame/datagram payload length is bounded on Kani (8/70, 16/256); frame encoders for ANY payload length are Verus unit frame_write. Field sections as wholes: Decoder::decode == reference interpreter (unit qpack_decode), Encoder::encode == one RFC 9204 line per field (unit qpack_encode), and decode(encode(h)) == h's fields (lemma unit qpack_roundtrip) - modulo the listed axioms on the primitives (string literal/Huffman codec and HashMap are ASSUMED); Headers::generate_frame's HashMap iteration order and Settings::generate_frame are not under contract.",
         "kani": VARINT_KANI + FRAME_WRITE_KANI + [FRAME_READ_20, STREAM_HEADER_KANI[1], DATAGRAM_KANI[0], DATAGRAM_KANI[1], DATAGRAM_KANI[2], DATAGRAM_KANI[3]]
                 + QPACK_INT_ENC + [QPACK_MISC[1], QPACK_LOOKUP, VEC_PUT_BYTES] + ASYNC_LEAF_KANI + ASYNC_WRITE_KANI[:2] + [QPACK_LOOKUP_QUICK],
@@ -456,7 +456,7 @@ def setup():
 
 
 NOT_APPLICABLE = {
-    "C05": "property of tokio::select! schedules in Worker::run_impl over concrete quinn streams; Kani has no async runtime/threads and quinn streams cannot be constructed without a connection. The leaf futures it rests on are under contract in C15.",
+    "C05": "property of tokio::select! schedules in Worker::run_impl over concrete quinn streams; Kani has no async runtime/threads and quinn streams cannot be constructed without a connection. The pieces it rests on are under contract elsewhere: leaf futures (C15), the stream run loops and synchronous handlers of the driver as sequential compositions over every sequence of read results (C04, C12, C13).",
     "C07": "liveness/independence over task interleavings (stalled streams never block others): whole-history concurrency property, outside contract-based deductive verification (no Kani threads, Verus would need permission types on tokio internals).",
     "C08": "exactly-once delivery over mpsc queues, cancellation and multi-task accept: whole-history concurrency property, no per-call contract expresses it.",
     "C09": "prompt, total termination over all pending futures: liveness + concurrency over tokio/quinn, not a per-call contract.",
